@@ -1,0 +1,9 @@
+//go:build verif
+
+package tpm
+
+// Hook for the external verification harness (/verif, property C15). Only
+// compiled with `-tags verif`.
+
+// ParseSysfsPCRsForVerif calls parseSysfsPCRs.
+func ParseSysfsPCRsForVerif(data []byte) ([amountOfPCRs][]byte, error) { return parseSysfsPCRs(data) }
